@@ -440,6 +440,44 @@ def colliding_names(chk):
     chk.extra["name_collision_failures"] = bad
 
 
+def _panic_site(stderr):
+    m = re.search(r"panicked at ([^:\n]+:\d+)", stderr or "")
+    return m.group(1) if m else "?"
+
+
+def workspaces(chk):
+    """(e) MC_C06_ws under MC_C07_ws.cfg: workspaces of several crates in which one Rust identifier names types of several crates (renamed
+    by serde in none / one / all of them) and a consumer crate names it in every form (import, glob, qualified path, facade, not at all):
+    the real binary, folder and single-file mode, terminates with output or with a reported error (Pipeline!NoPanicExit)."""
+    import concurrent.futures as cf
+    from . import c06
+    res = common.run_tlc("MC_C06_ws", cfg="MC_C07_ws", workers=2, timeout=300)
+    chk.add_tlc("MC_C06_ws[C07]", res)
+    if not res.replays:
+        raise ToolError("MC_C06_ws produced no cases")
+    work = common.scratch("c07ws")
+
+    def one(a):
+        k, c = a
+        d = os.path.join(work, f"w{k}")
+        cli.make_tree(os.path.join(d, "src_root"), c06.ws_files(c))
+        r, _sha, _ = c06.run_once(d, c["lang"], c["mode"], {}, "s0")
+        return c, r
+
+    bad = 0
+    with cf.ThreadPoolExecutor(max_workers=12) as ex:
+        for c, r in ex.map(one, list(enumerate(res.replays))):
+            chk.judged(("ws", c["form"], c["providers"], c["renames"], c["lang"], c["mode"]))
+            if r["exit"] in ("panic", "timeout", "signal"):
+                bad += 1
+                site = re.sub(r"^.*/(core|cli|lib)/", r"\1/", _panic_site(r["stderr"])) if r["exit"] == "panic" else r["exit"]
+                chk.mismatch(f"C07/workspace/{c['mode']}/{c['form']}/renames-{c['renames']}/{r['exit']}@{site}",
+                             f"{c['lang']} {c['mode']}: workspace {c}: the run ends with {r['exit']}: {r['stderr'][-240:].strip()}",
+                             {"workspace": c}, "output or a reported error", r["exit"])
+    chk.extra["workspace_runs"] = len(res.replays)
+    chk.extra["workspace_failures"] = bad
+
+
 def run(chk):
     thorough = chk.tier == "thorough"
     chk.rule = ("model: every schedule of 3 files x 2 workers x capacity 1 for all parse-result assignments (TLC, with fairness); "
@@ -484,6 +522,7 @@ def run(chk):
     corpus_panics(chk, 3000 if thorough else 300)
     odd_types(chk)
     colliding_names(chk)
+    workspaces(chk)
 
 
 def replay(chk, rec):
@@ -495,6 +534,9 @@ def replay(chk, rec):
         judge_vector(chk, v, r, written, ["edge.rs"] + (["bad.rs"] if v["companion"] in ("bad", "good_and_bad") else []) +
                      ([os.path.basename(SPECIAL[v["construct"]][0])] if v["construct"] in SPECIAL else []))
         chk.mismatches = {(rec["signature"] if k.split("/")[1] == rec["signature"].split("/")[1] else k): m for k, m in chk.mismatches.items()}
+    elif "workspace" in c:
+        workspaces(chk)
+        chk.mismatches = {k: m for k, m in chk.mismatches.items() if k == rec["signature"]}
     elif "schedule" in c:
         replay_model_schedules(chk, work)
     elif "src" in c:
